@@ -157,6 +157,18 @@ impl Val {
             _ => {}
         }
     }
+    /// the items an `into_iter()` over this value yields (generated IntoIter nodes)
+    pub fn into_items(self) -> Vec<Val> {
+        match self {
+            Val::List(l) => l,
+            Val::Opt(None) => vec![],
+            Val::Opt(Some(x)) => vec![*x],
+            Val::Unit => vec![],
+            // observation wrappers of the harness are looked through
+            Val::Obs(_, _, _, v) | Val::St(_, _, v) => (*v).into_items(),
+            other => vec![other],
+        }
+    }
     pub fn first_tok(&self) -> Option<char> {
         let mut v = Vec::new();
         self.tokens(&mut v);
@@ -222,7 +234,7 @@ pub fn ledger_snapshot() -> (BTreeSet<u64>, u64, u64, Vec<u64>) {
     })
 }
 
-#[derive(Serialize, Deserialize)]
+#[derive(Serialize, Deserialize, Debug)]
 pub struct Tracked {
     pub tag: u32,
     #[serde(skip)]
